@@ -313,6 +313,9 @@ class FuncOrder(object):
 
     def key_is_total(self, key, src):
         """The sort key determines the element (ties impossible between distinct elements)."""
+        ig = self._itemgetter(key)
+        if ig is not None:
+            return self._key_body_total(ig[0], ig[1], src)
         if isinstance(key, ast.Name):
             # a named key function of the same module that only returns an expression
             fi = self.f.module.functions.get(key.id)
@@ -326,12 +329,65 @@ class FuncOrder(object):
             p, body = key.args.args[0].arg, key.body
         else:
             return False
+        return self._key_body_total(p, body, src)
+
+    def _itemgetter(self, key):
+        """operator.itemgetter(i, j, ...) written in place or bound once at module level:
+        the equivalent lambda body, else None."""
+        if isinstance(key, ast.Name) and self.f.module.functions.get(key.id) is None:
+            ds = [n for n in self.f.module.tree.body if isinstance(n, ast.Assign) and any(
+                isinstance(t, ast.Name) and t.id == key.id for t in n.targets)]
+            if len(ds) != 1:
+                return None
+            key = ds[0].value
+        if isinstance(key, ast.Lambda) and len(key.args.args) == 1:
+            return key.args.args[0].arg, key.body
+        if isinstance(key, ast.Call) and unparse(key.func) in ("operator.itemgetter", "itemgetter") \
+                and key.args and not key.keywords and all(
+                    isinstance(a, ast.Constant) and isinstance(a.value, int) for a in key.args):
+            elts = [ast.Subscript(value=ast.Name(id="_x", ctx=ast.Load()),
+                                  slice=ast.Constant(value=a.value), ctx=ast.Load())
+                    for a in key.args]
+            return "_x", (elts[0] if len(elts) == 1 else ast.Tuple(elts=elts, ctx=ast.Load()))
+        return None
+
+    def _arity_of(self, src):
+        """Arity of the tuples held by the collection expression `src`: of a list that tuple
+        displays are appended to, also through update / extend / set() / list() / copies."""
+        known = dict(self.tuple_arity)
+        for _ in range(4):
+            for n in ast.walk(self.f.node):
+                tgt = val = None
+                if isinstance(n, ast.Call) and isinstance(n.func, ast.Attribute) and \
+                        n.func.attr in ("update", "extend") and isinstance(
+                            n.func.value, ast.Name) and len(n.args) == 1:
+                    tgt, val = n.func.value.id, n.args[0]
+                elif isinstance(n, ast.Call) and isinstance(n.func, ast.Attribute) and \
+                        n.func.attr in ("add", "append") and isinstance(
+                            n.func.value, ast.Name) and len(n.args) == 1 and isinstance(
+                            n.args[0], ast.Tuple):
+                    known[n.func.value.id] = max(known.get(n.func.value.id, 0), len(n.args[0].elts))
+                elif isinstance(n, ast.Assign) and len(n.targets) == 1 and isinstance(
+                        n.targets[0], ast.Name):
+                    tgt, val = n.targets[0].id, n.value
+                elif isinstance(n, ast.AugAssign) and isinstance(n.target, ast.Name):
+                    tgt, val = n.target.id, n.value
+                if tgt is None:
+                    continue
+                while isinstance(val, ast.Call) and isinstance(val.func, ast.Name) and \
+                        val.func.id in ("set", "list", "tuple", "sorted", "frozenset") and val.args:
+                    val = val.args[0]
+                if isinstance(val, ast.Name) and val.id in known:
+                    known[tgt] = max(known.get(tgt, 0), known[val.id])
+        for n in ast.walk(src):
+            if isinstance(n, ast.Name) and n.id in known:
+                return known[n.id]
+        return None
+
+    def _key_body_total(self, p, body, src):
         if isinstance(body, ast.Name) and body.id == p:
             return True
-        arity = None
-        for n in ast.walk(src):
-            if isinstance(n, ast.Name) and n.id in self.tuple_arity:
-                arity = self.tuple_arity[n.id]
+        arity = self._arity_of(src)
         if arity is None:
             return False
         idx = set()
